@@ -438,7 +438,9 @@ pub fn c16_step(st: &mut C16State, pre: &StoreSnap, post: &StoreSnap, step: &Ste
                 if let Some(pa) = pre.accts.get(&k) {
                     // zero-amount deposits return early without doing anything
                     let noop = pre.accts.get(&k).map(|x| x.raw.lending_account.balances) == post.accts.get(&k).map(|x| x.raw.lending_account.balances);
-                    if pa.flags & ACCOUNT_DISABLED != 0 && !noop {
+                    // (a flash-loan bracket that commits on a disabled account is a violation even when it is empty:
+                    // the start itself must be refused)
+                    if pa.flags & ACCOUNT_DISABLED != 0 && (!noop || matches!(step.op, Op::Flash { .. })) {
                         out.push(finding("structure:disabled-acted", format!("op#{} {}: succeeded on disabled account {k}", step.index, step.op.name())));
                     }
                 }
